@@ -499,7 +499,8 @@ class Mode(LogMixin):
             if not delay:
                 self.add_mode_event_handler(
                     event=event,
-                    handler=method,
+                    handler=self._direct_control_event_handler,
+                    callback=method,
                     blocking_facility=device.class_label)
             else:
                 self.add_mode_event_handler(
@@ -520,9 +521,24 @@ class Mode(LogMixin):
         for device in device_list:
             device.add_control_events_in_mode(self)
 
+    def _direct_control_event_handler(self, callback: Callable[..., Any], **kwargs) -> Any:
+        # the dispatcher of a queue event works on the handler list it found when the event
+        # was posted: this handler may still be called after the mode has stopped and its
+        # devices have been removed
+        if not self._active and not self._starting:
+            self.debug_log("Ignoring control event for %s. Mode is not running.", callback)
+            return None
+
+        return callback(**kwargs)
+
     def _control_event_handler(self, callback: Callable[..., None], ms_delay: int = 0, **kwargs) -> None:
         del kwargs
         self.debug_log("_control_event_handler: callback: %s,", callback)
+
+        # see _direct_control_event_handler
+        if not self._active and not self._starting:
+            self.debug_log("Ignoring control event for %s. Mode is not running.", callback)
+            return
 
         self.delay.add(ms=ms_delay, callback=callback, mode=self)
 
